@@ -46,7 +46,7 @@ def make_frames():
     A1 = ["w", "u", None, "v", "u", "w", "v", "u"]
     b1 = [5.5, 1.0, 2.25, 9.0, 4.0, 3.5, 8.0, 6.0]
     B1 = ["p", "p", "r", "q", None, "r", "q", "p"]
-    d1 = pd.DataFrame({"a": a1, "b": b1, "A": pd.Series(A1, dtype=object), "B": pd.Categorical(B1, categories=["r", "p", "q"])},
+    d1 = pd.DataFrame({"a": a1, "b": b1, "A": pd.Series(A1, dtype=object).to_numpy(), "B": pd.Categorical(B1, categories=["r", "p", "q"])},
                       index=["i%d" % i for i in range(n)])
     d2 = pd.DataFrame({"a": [10.0, 11.5, 9.25, 12.0, 8.5, 10.75], "b": [1.5, 7.0, 3.25, 2.0, 6.5, 4.0],
                        "A": pd.Series(["v", "w", "v", "w", "w", "v"], dtype=object),
@@ -55,6 +55,11 @@ def make_frames():
     d3 = pd.DataFrame({"a": [2.0, -1.5, 0.25, 5.0, 3.5, 1.0, -0.5, 4.25], "b": [6.0, 2.5, 7.0, 1.5, 4.5, 3.0, 8.0, 5.5],
                        "A": [3.0, 1.0, 2.0, 1.0, 3.0, 2.0, 1.0, 2.0],
                        "B": pd.Categorical(["p", "q", "r", "p", "q", "r", "p", "q"], categories=["r", "p", "q"])})
+    # two more small categorical columns (text G, categorical-dtype H) for interactions of three and four factors
+    for frame in (d0, d1, d2, d3):
+        m = len(frame)
+        frame["G"] = pd.Series((["g1", "g2", "g2", "g1", "g1", "g2", "g1", "g2"])[:m], dtype=object).to_numpy()
+        frame["H"] = pd.Categorical((["h2", "h1", "h1", "h2", "h2", "h2", "h1", "h1"])[:m], categories=["h2", "h1"])
     # columns whose names are not Python identifiers (must be back-ticked inside Python-evaluated factors)
     for frame, shift in ((d0, 0.0), (d1, 1.5), (d2, -2.0), (d3, 0.25)):
         frame["my col"] = (frame["b"] * 0.5 + shift).to_numpy()
